@@ -35,14 +35,14 @@ func KitchenSink() []*Doc {
 		}
 		str := &Schema{Type: "string"}
 		d.Paths["/pets"] = &PathItem{
-			Get: &Operation{OperationID: "listPets", Parameters: []*Parameter{
+			Get: &Operation{OperationID: "listPets", Deprecated: true, Tags: []string{"pets", "legacy"}, Parameters: []*Parameter{
 				{Name: "limit", In: "query", Schema: &Schema{Ref: RefSchemas + "Limit"}}, {Name: "tags", In: "query", Schema: &Schema{Type: "array", Items: str}},
 				{Name: "since", In: "query", Schema: &Schema{Type: "string", Format: "date-time"}}, {Name: "min_weight", In: "query", Required: true, Schema: &Schema{Type: "number"}},
 				{Name: "ids", In: "query", Schema: &Schema{Type: "array", Items: &Schema{Type: "integer", Format: "int64"}}}, {Name: "alive", In: "query", Schema: &Schema{Type: "boolean"}},
 				{Ref: RefParameters + "Trace"}},
 				Responses: map[string]*Response{"200": {Description: Str("ok"), Content: JSONContent(&Schema{Ref: RefSchemas + "Pets"}), Headers: map[string]*Header{"X-Total": {Required: true, Schema: &Schema{Type: "integer"}}, "X-Next": {Schema: str}}},
 					"default": {Ref: RefResponses + "Problem"}}},
-			Post: &Operation{OperationID: "createPet", RequestBody: &RequestBody{Required: true, Content: JSONContent(&Schema{Ref: RefSchemas + "Pet"})},
+			Post: &Operation{OperationID: "createPet", Deprecated: true, Tags: []string{"pets"}, RequestBody: &RequestBody{Required: true, Content: JSONContent(&Schema{Ref: RefSchemas + "Pet"})},
 				Security:  &[]map[string][]string{{"bearer": {}}, {"key": {}}},
 				Responses: map[string]*Response{"201": {Description: Str("created"), Content: JSONContent(&Schema{Ref: RefSchemas + "Pet"})}, "400": {Ref: RefResponses + "BadRequest"}}},
 		}
